@@ -25,7 +25,7 @@ def _harness_args(a, trace, only=None):
     if a.get("guards"):
         return ["guards", "-out", trace, "-seed", a["seed"], "-rand", a["rand"]] + (["-only", only] if only is not None else [])
     if a.get("liveness"):
-        return ["liveness", "-out", trace, "-seed", a["seed"], "-runs", a["runs"], "-prefix", a["prefix"], "-nmax", a["nmax"], "-cuts", a.get("cuts", 0)] + (
+        return ["liveness", "-out", trace, "-seed", a["seed"], "-runs", a["runs"], "-prefix", a["prefix"], "-nmax", a["nmax"], "-cuts", a.get("cuts", 0)] + (["-allcuts"] if a.get("allcuts") else []) + (
             ["-only", only] if only is not None else [])
     out = ["cluster", "-out", trace, "-seed", a["seed"], "-runs", a["runs"], "-steps", a["steps"], "-heights", a["heights"],
            "-nmin", a["nmin"], "-nmax", a["nmax"]]
